@@ -741,6 +741,26 @@ func init() {
 			"race reports are not shrinkable (schedule dependent): the batch itself is the replay file",
 		},
 		Gen: func(t *rapid.T) any {
+			if rapid.IntRange(0, 1<<20).Draw(t, "bigtable")%14 == 13 {
+				// thousands of rows per query (beyond the thresholds of size-dependent strategies) under clauses that
+				// touch per-query state: sub queries, EXISTS, ONCE calls, aggregates, ASYNC calls
+				n := rapid.IntRange(4100, 5200).Draw(t, "bigtable.n")
+				rows := make([]any, n)
+				for i := range rows {
+					rows[i] = map[string]any{"k": float64(i % 13), "v": float64(i), "s": fmt.Sprintf("s%d", i%5)}
+				}
+				doc := map[string]any{"t": rows, "t2": []any{map[string]any{"c": 1.0}, map[string]any{"c": 5.0}, map[string]any{"c": 12.0}}}
+				pool := []string{"SELECT v FROM t WHERE k IN (SELECT c FROM `<-t2`)", "SELECT v FROM t WHERE EXISTS (SELECT c FROM `<-t2` WHERE c = 5) AND k > 6",
+					"SELECT v FROM t WHERE ONCE.vf_id(3) = k", "SELECT v, (SELECT COUNT(c) AS n FROM `<-t2`) AS n FROM t WHERE k = 2", "SELECT s, COUNT(*) AS n, SUM(v) AS sv FROM t WHERE k < 9 GROUP BY s",
+					"SELECT v, ASYNC.vf_id(k) AS a FROM t WHERE k IN (1, 5) ORDER BY v DESC LIMIT 7", "SELECT DISTINCT k, s FROM t WHERE v > 100", "SELECT v FROM t WHERE s LIKE 's1%' ORDER BY v LIMIT 3 OFFSET 2"}
+				b := C13Batch{Scenario: "big-tables", Docs: []map[string]any{doc}, Procs: rapid.SampledFrom([]int{2, 4, 16}).Draw(t, "bigtable.procs")}
+				ng := rapid.IntRange(2, 3).Draw(t, "bigtable.g")
+				for g := 0; g < ng; g++ {
+					sql := rapid.SampledFrom(pool).Draw(t, fmt.Sprintf("bigtable.q%d", g))
+					b.G = append(b.G, []C13Q{{Doc: 0, SQL: sql, Unordered: strings.Contains(sql, "GROUP BY") || strings.Contains(sql, "DISTINCT")}})
+				}
+				return &C13Case{Batch: b}
+			}
 			c := genC13(t).(*C13Case)
 			if rapid.IntRange(0, 2).Draw(t, "prelude") == 0 {
 				c.Batch.Docs = append(c.Batch.Docs, val.CopyMap(c13PreludeDoc))
